@@ -12,17 +12,18 @@ import (
 func init() {
 	register("C16", "Decides structural necessary conditions of 'a scan delivers every entry of its range exactly once' (compositional: channel delivery is the axiom, each premise is a shape of the code): "+
 		"(R1) the range generator emits consecutive, abutting, non-empty ranges: next covers the indices start … start + min(end − start, batch) − 1 (its end field is that last index + δ for one constant δ, the same δ the worker takes off again — inclusive and half-open ranges are both decided), the following start is this start + the batch length, the first start is StartIndex, the loop stops only when start ≥ end and not continuous, the STH is refreshed only when start = end, the send can always be abandoned on context end, the channel is closed by its producer; "+
-		"(R2) a worker works off the range it received from the ranges channel: it requests exactly the indices from its cursor r.start up to the last index of the range (r.end − δ), labels the delivered batch with the start it requested, advances that same cursor by the number of entries delivered, requests again exactly while the cursor has not passed that last index (decided for every state the loop test can tell apart, and for cursor = last / last + 1), and on a failed request neither delivers nor advances; "+
+		"(R2) a worker works off the range it received from the ranges channel: it requests up to the last index of the range (r.end − δ) and requests again exactly while its cursor has not passed that last index (decided for every state the loop test can tell apart, and for cursor = last / last + 1), a failed request is tried again for the same range; and what reaches the callback is every index of the range once, under its own label, with the entries of the response that was asked for it — decided by walking the worker (every path from the receive of a range to the request loop, every path through one round of it, every way out; a request has two outcomes), with a ghost counter \"first index not delivered\" that every batch handed to the callback advances, under the strongest linear equalities that the start of a range and all rounds keep between the loop-carried integers, the lengths of the loop-carried slices and that counter (affine hull; tests that came out \"=\" restrict the states a path applies to): a batch is labelled with the first index not delivered; every chunk of a batch lies at the index its request asked for and is the response of a request that succeeded; what a round keeps for a later batch lies at consecutive indices from the first index not delivered, is empty when a range is taken up, and is not collected on the backing array of a batch already handed over; the loop is left for the next range only when the first index not delivered has passed the last index; every kind of round (failed request, …) keeps the equalities the fetching rounds keep — whether responses are handed over one by one or collected, under whichever cursor and label variables; "+
 		"(R3) single producer / single consumer structure: only the generator sends ranges, only workers invoke the callback, ScanLog's entry channel is fed only by its flatten callback and closed after the fetcher returns; "+
 		"(R4) indices are derived as batch.Start + i at all three consumers (scanner flatten, migrillian submitter, client.GetEntries); "+
 		"(R5) the scanner calls at most one of the two callbacks per entry, exactly when the matcher selected it (and, for certificates, not in precert-only mode); "+
 		"(R6) Fetcher.cancel is guarded by its mutex and the scanner's counters are touched only through sync/atomic once goroutines run; Prepare clamps EndIndex to the tree size. "+
-		"NOT covered: schedules as such, termination/liveness, servers returning more entries than asked, behaviour of backoff.Retry.",
+		"NOT covered: schedules as such, termination/liveness (a worker that drops what it collected and fetches it again on every failure is accepted), what happens to entries already fetched when the context is cancelled (they may or may not be handed over), servers returning more entries than asked, behaviour of backoff.Retry, a worker that hands the callback on to another function or delivers from a function literal (undecided ⇒ fails).",
 		runC16)
 }
 
 func runC16(r *Run) {
 	r.Assume("Go channels deliver each sent value to exactly one receiver; backoff.Retry returns nil only after its function returned nil")
+	r.Assume("the worker's delivery accounting treats the function literal handed to backoff.Retry as run to its last call: when Retry returns nil the response variable holds the response of a request that succeeded, otherwise it holds nothing the log returned for the indices asked; a successful response holds entries for consecutive indices from the first index requested; locals of the worker whose address is not passed on are changed only by the worker's own stores")
 	r.D.PhiByName = true
 	defer func() { r.D.PhiByName = false }()
 
